@@ -43,6 +43,14 @@ void World::auditI1(bool all)
         if (failed()) return;
         checkEdge(*e, "I1", cur_family, "held edge");
     }
+    for (Hoard* H : hoards) {
+        if (failed()) return;
+        if (H->copies.empty()) continue;
+        EdgeSlot tmp; tmp.forest = H->forest; tmp.tab = H->tab; tmp.oracle = H->oracle;
+        tmp.e = H->copies[size_t(cur_step) % H->copies.size()];
+        if (H->forest >= 0 && !forests[size_t(H->forest)].alive) tmp.forest = -1;
+        checkEdge(tmp, "I1", cur_family, "hoarded copy");
+    }
 }
 
 void World::auditI2()
@@ -487,6 +495,7 @@ void World::finalAudit()
         if (!err.empty()) { failNow("I7", cur_family, err); return; }
     }
     // final drain of every forest
+    dropHoards();
     for (size_t i = edges.size(); i; ) dropEdge(--i);
     for (size_t i = iters.size(); i; ) {
         --i;
